@@ -59,7 +59,7 @@ structure Hop where
   deriving DecidableEq, Repr, Inhabited
 
 inductive EIdx where
-  | none | glob | int (n : Int)
+  | none | glob | int (digits : Text)   -- strconv.Itoa(*ei.Int)
   deriving DecidableEq, Repr, Inhabited
 
 /-- everything of a d2ast.Key before the primary/value -/
@@ -135,11 +135,11 @@ def impPath : Path → Path
 def fmtImp (sp : Bool) (p : Path) : Text := spreadDots sp ++ '@' :: fmtPath (impPath p)
 
 def fmtScalar : Scalar → Text
-  | .null => "null".toList
-  | .susp true => "suspend".toList
-  | .susp false => "unsuspend".toList
-  | .bool true => "true".toList
-  | .bool false => "false".toList
+  | .null => ['n', 'u', 'l', 'l']
+  | .susp true => ['s', 'u', 's', 'p', 'e', 'n', 'd']
+  | .susp false => ['u', 'n', 's', 'u', 's', 'p', 'e', 'n', 'd']
+  | .bool true => ['t', 'r', 'u', 'e']
+  | .bool false => ['f', 'a', 'l', 's', 'e']
   | .num raw => raw
   | .str s => fmtStr s
 
@@ -153,12 +153,10 @@ def fmtHops : List Hop → Text
   | [h] => fmtArrowDst h
   | h :: rest => fmtArrowDst h ++ ' ' :: fmtHops rest
 
-def natDigits (n : Nat) : Text := (toString n).toList
-
 def fmtEIdx : EIdx → Text
   | .none => []
   | .glob => ['[', '*', ']']
-  | .int n => '[' :: ((if n < 0 then '-' :: natDigits n.natAbs else natDigits n.natAbs) ++ [']'])
+  | .int ds => '[' :: (ds ++ [']'])
 
 def optPath : Option Path → Text
   | none => []
@@ -277,7 +275,7 @@ def fmtFile : N → Text
 
 /-! ## what Parse ∘ Format does to a fragment AST (layout included) -/
 
-def hasNL (t : Text) : Bool := t.contains '\n'
+def hasNL (t : Text) : Bool := t.any (· == '\n')
 
 def normStr (s : Str) : Str :=
   match s.q with
@@ -449,6 +447,7 @@ def headOk (h : KeyHead) : Bool :=
   (match h.key with | some p => pathOk p | none => true) &&
   (match h.src with | some p => pathOk p | none => true) &&
   h.hops.all (fun x => !hasNL x.sa && !hasNL x.da && pathOk x.dst) &&
+  (match h.eidx with | .int ds => !hasNL ds | _ => true) &&
   (match h.ekey with | some p => pathOk p | none => true)
 
 /-- after the first board node only board nodes follow -/
